@@ -76,16 +76,16 @@ def check_state(ctx, name, psi, ref, case, expect_norm=None, tol=1e-9, phase_fre
     scale = max(1.0, float(np.linalg.norm(ref)))
     if phase_free:
         ov, dist = dense.align_phase(vec.reshape(-1), ref.reshape(-1))
-        if abs(ov - 1) > 1e-8 or abs(np.linalg.norm(vec) - np.linalg.norm(ref)) > tol * scale:
+        if not (abs(ov - 1) <= 1e-8) or not (abs(np.linalg.norm(vec) - np.linalg.norm(ref)) <= tol * scale):
             ctx.violation(name + ':state-differs', 'overlap %r, |vec| %r |ref| %r' % (ov, np.linalg.norm(vec), np.linalg.norm(ref)), case)
             return None
-    elif np.linalg.norm(vec - ref) > tol * scale:
+    elif not (np.linalg.norm(vec - ref) <= tol * scale):
         ov, _ = dense.align_phase(vec.reshape(-1), ref.reshape(-1))
         kind = 'norm-or-phase' if abs(ov - 1) < 1e-8 else 'direction'
         ctx.violation('%s:state-differs:%s' % (name, kind), '|psi - ref| = %g, normalised overlap %r, psi.norm %r' %
                       (np.linalg.norm(vec - ref), ov, psi.norm), case)
         return None
-    if expect_norm is not None and abs(psi.norm - expect_norm) > tol * max(1.0, expect_norm):
+    if expect_norm is not None and not (abs(psi.norm - expect_norm) <= tol * max(1.0, expect_norm)):
         ctx.violation(name + ':norm-attribute', 'psi.norm %r expected %r' % (psi.norm, expect_norm), case)
     return vec
 
@@ -96,7 +96,7 @@ def check_canonical(ctx, name, psi, vec, case):
     L = psi.L
     unit = vec / np.linalg.norm(vec)
     nt = psi.norm_test()
-    if np.max(np.abs(nt)) > 1e-8:
+    if not (np.max(np.abs(nt)) <= 1e-8):
         ctx.violation(name + ':norm_test-nonzero', 'norm_test %r' % np.asarray(nt).tolist(), case)
         return
     ent = psi.entanglement_entropy()
@@ -110,7 +110,7 @@ def check_canonical(ctx, name, psi, vec, case):
             continue
         ctx.count('schmidt.cuts_checked')
         Ss = np.sort(S[S > 1e-12])[::-1]
-        if len(Ss) != len(sv) or np.max(np.abs(Ss - sv)) > 1e-8:
+        if len(Ss) != len(sv) or not (np.max(np.abs(Ss - sv)) <= 1e-8):
             ctx.violation(name + ':singular-values-not-schmidt', 'bond %d: stored %r dense %r' % (b, Ss[:6], sv[:6]), case)
             return
         if psi.chi[b - 1] != len(S):
@@ -118,11 +118,11 @@ def check_canonical(ctx, name, psi, vec, case):
         p = sv**2
         e1 = -np.sum(p * np.log(p))
         e2 = -np.log(np.sum(p**2))
-        if abs(ent[b - 1] - e1) > 1e-8 or abs(ent2[b - 1] - e2) > 1e-8:
+        if not (abs(ent[b - 1] - e1) <= 1e-8) or not (abs(ent2[b - 1] - e2) <= 1e-8):
             ctx.violation(name + ':entanglement_entropy', 'bond %d: %r / %r expected %r / %r' % (b, ent[b - 1], ent2[b - 1], e1, e2), case)
             return
         sp = np.sort(np.asarray(spec[b - 1]))
-        if len(sp) != len(S) or np.max(np.abs(sp[:len(sv)] - np.sort(-2 * np.log(sv)))) > 1e-6:
+        if len(sp) != len(S) or not (np.max(np.abs(sp[:len(sv)] - np.sort(-2 * np.log(sv)))) <= 1e-6):
             ctx.violation(name + ':entanglement_spectrum', 'bond %d' % b, case)
             return
 
@@ -476,7 +476,7 @@ def build_from_random_unitary_evolution(ctx, rng, i):
         np.random.set_state(state)
     ctx.count('builder.from_random_unitary_evolution')
     vec = dense.finite_vector(psi)
-    if abs(np.linalg.norm(vec) - 1) > 1e-8:
+    if not (abs(np.linalg.norm(vec) - 1) <= 1e-8):
         ctx.violation('from_random_unitary_evolution:not-normalised', '%r' % np.linalg.norm(vec), case)
         return
     ref0 = MPS.from_product_state(sites, p_state)
@@ -507,7 +507,7 @@ def build_from_desired_bond_dimension(ctx, rng, i):
         np.random.set_state(state)
     ctx.count('builder.from_desired_bond_dimension')
     vec = dense.finite_vector(psi)
-    if abs(np.linalg.norm(vec) - 1) > 1e-8:
+    if not (abs(np.linalg.norm(vec) - 1) <= 1e-8):
         ctx.violation('from_desired_bond_dimension:not-normalised', '%r' % np.linalg.norm(vec), case)
         return
     check_canonical(ctx, 'from_desired_bond_dimension', psi, vec, case)
@@ -590,7 +590,7 @@ def build_segment(ctx, rng, i):
     # the segment tensor (vL, p_first..p_last, vR) equals the Schmidt-basis decomposition of the full state:
     # contracting with the environments' orthonormal Schmidt vectors gives back the state; check via singular values:
     T = dense.mps_to_vector(seg)
-    if abs(np.linalg.norm(T) - 1) > 1e-8:
+    if not (abs(np.linalg.norm(T) - 1) <= 1e-8):
         ctx.violation('extract_segment:segment-not-normalised', '|theta| = %r' % np.linalg.norm(T), case)
         return
     # reduced density matrix of the segment sites must equal the dense one
@@ -601,13 +601,13 @@ def build_segment(ctx, rng, i):
     rho = np.einsum('amb,anb->mn', M, M.conj())
     Tm = T.reshape(T.shape[0], dm, T.shape[-1])
     rho_seg = np.einsum('amb,anb->mn', Tm, Tm.conj())
-    if np.linalg.norm(rho - rho_seg) > 1e-8:
+    if not (np.linalg.norm(rho - rho_seg) <= 1e-8):
         ctx.violation('extract_segment:reduced-density-matrix-differs', '|rho - rho_seg| = %g' % np.linalg.norm(rho - rho_seg), case)
     # form conversions on a segment keep theta
     try:
         seg.convert_form(str(rng.choice(['A', 'C', 'G', 'Th'])))
         T2 = dense.mps_to_vector(seg)
-        if np.linalg.norm(T2 - T) > 1e-8:
+        if not (np.linalg.norm(T2 - T) <= 1e-8):
             ctx.violation('segment.convert_form:state-differs', '', case)
     except Exception as e:
         ctx.violation('segment.convert_form:raises-%s' % type(e).__name__, traceback.format_exc()[-500:], case)
@@ -639,7 +639,7 @@ def build_segment(ctx, rng, i):
             F = np.moveaxis(np.tensordot(O, F, axes=[1, j + 1]), 0, j + 1)
             got = seg_full(seg2)
             ctx.count('segment.recanonicalised')
-            if got.shape != F.shape or np.linalg.norm(got - F) > 1e-8 * max(1.0, np.linalg.norm(F)):
+            if got.shape != F.shape or not (np.linalg.norm(got - F) <= 1e-8 * max(1.0, np.linalg.norm(F))):
                 ctx.violation('segment.canonical_form:boundary-rotations-not-accumulated', 'after %d local operators with re-canonicalisation: '
                               '|U_L.segment.V_R - expected| = %g (|expected| = %g)' %
                               (rep + 1, np.linalg.norm(got - F) if got.shape == F.shape else -1, np.linalg.norm(F)), case)
@@ -699,7 +699,7 @@ def build_infinite(ctx, rng, i):
         return
     ctx.count('infinite.cases')
     nt = psi.norm_test()
-    if np.max(np.abs(nt)) > 1e-6:
+    if not (np.max(np.abs(nt)) <= 1e-6):
         ctx.violation('canonical_form_infinite%d:norm_test-nonzero' % which, '%r' % np.asarray(nt).tolist(), case)
         return
     # reference transfer-matrix fixed point from the raw input tensors: dominant eigenvector of the unit-cell transfer
@@ -734,10 +734,10 @@ def build_infinite(ctx, rng, i):
     # tenpy side: harness theta on site 0 from raw storage
     th = window_theta(psi, 0, 1)
     rho_t = np.einsum('apb,aqb->pq', th, th.conj())
-    if abs(np.trace(rho_t) - 1) > 1e-7:
+    if not (abs(np.trace(rho_t) - 1) <= 1e-7):
         ctx.violation('canonical_form_infinite%d:theta-not-normalised' % which, 'tr rho = %r' % np.trace(rho_t), case)
         return
-    if np.linalg.norm(rho_t - rho) > 1e-6:
+    if not (np.linalg.norm(rho_t - rho) <= 1e-6):
         ctx.violation('canonical_form_infinite%d:local-density-matrix-differs' % which,
                       '|rho_mps - rho_exact| = %g' % np.linalg.norm(rho_t - rho), case)
         return
@@ -749,16 +749,16 @@ def build_infinite(ctx, rng, i):
         th_t = psi.get_theta(i0, n)
         idx = [th_t.get_leg_index(l) for l in ['vL'] + ['p%d' % k for k in range(n)] + ['vR']]
         th_d = np.transpose(th_t.to_ndarray(), idx)
-        if np.linalg.norm(th_d - base) > 1e-8:
+        if not (np.linalg.norm(th_d - base) <= 1e-8):
             ctx.violation('get_theta:differs-from-harness-contraction', 'i=%d n=%d: |diff| = %g' % (i0, n, np.linalg.norm(th_d - base)), case)
         f = [str(rng.choice(['A', 'B', 'C', 'G', 'Th'])) for _ in range(L)]
         psi.convert_form(f)
         after = window_theta(psi, i0, n)
-        if np.linalg.norm(after - base) > 1e-8:
+        if not (np.linalg.norm(after - base) <= 1e-8):
             ctx.violation('infinite.convert_form:window-state-differs', 'forms %r window (%d,%d)' % (f, i0, n), dict(case, forms=f))
         th2 = psi.get_theta(i0, n)
         th2d = np.transpose(th2.to_ndarray(), [th2.get_leg_index(l) for l in ['vL'] + ['p%d' % k for k in range(n)] + ['vR']])
-        if np.linalg.norm(th2d - base) > 1e-8:
+        if not (np.linalg.norm(th2d - base) <= 1e-8):
             ctx.violation('get_theta:depends-on-form', 'forms %r window (%d,%d): |diff| %g' % (f, i0, n, np.linalg.norm(th2d - base)), dict(case, forms=f))
     except Exception as e:
         ctx.violation('infinite.history:raises-%s' % type(e).__name__, traceback.format_exc()[-500:], case)
